@@ -563,11 +563,12 @@ pub fn compute_swap(
 
             let mut slippage_amount = adjusted_offer_amount.saturating_sub(adjusted_return_amount);
 
-            // If offer_precision < max_precision, we need to convert the spread_amount to the offer_precision
-            if offer_precision < max_precision {
+            // The spread is added to, and compared against, the return amount and the fees, which are
+            // expressed in the ask precision: convert it to the ask precision as well
+            if ask_precision < max_precision {
                 slippage_amount = Decimal256::decimal_with_precision(
                     slippage_amount,
-                    max_precision - offer_precision,
+                    max_precision - ask_precision,
                 )?
                 .to_uint_floor();
             }
